@@ -366,6 +366,7 @@ CHECKS["C08"] = {
         H("c11.VH_relay", {"params": {"PEERS": 2, "BL": 2, "DL": 2, "UPL": 2}, "race": True}, {"params": {"PEERS": 2, "BL": 2, "DL": 2, "UPL": 2}, "race": True, "preempt": 1}, variant="race", covers=["relayed"], weight=4, **_envonly),
         H("c11.VH_failwindow", {"params": {}, "race": True}, {"params": {}, "race": True, "preempt": 1}, variant="race", covers=["queried"], weight=1, **_envonly),
         H("c01.VH_step_tee", {"params": {"MAXB": 600}, "race": True}, {"params": {"MAXB": 3000}, "race": True}, variant="race", covers=["recorder ran"], weight=3, **_envonly),
+        H("c01.VH_tee_vars", {"params": {"OFFSET0": 1, "READS": 1, "ROUNDS": 2}, "race": True}, {"params": {"OFFSET0": 1, "READS": 2, "ROUNDS": 2}, "race": True}, covers=["tee with handlers that set connection variables"], weight=2, **_envonly),
         H("c11.VH_retry", {"params": {}, "race": True}, {"params": {}, "race": True, "preempt": 1}, variant="race", covers=["gave up"], weight=1, **_envonly),
         H("c11.VH_maxconn", {"params": {}, "race": True}, {"params": {}, "race": True, "preempt": 1}, variant="race", covers=["probed while proxying"], weight=1, **_envonly),
         H("c17.VH_throttle", {"params": {"CFG": 3, "READS": 2, "CONNS": 2, "SIZES": 2, "L": 200}, "race": True}, {"params": {"CFG": 3, "READS": 2, "CONNS": 2, "SIZES": 3, "L": 320}, "race": True}, variant="race", covers=["throttled"], weight=2, validate=False, native_replay=False, env_only=True),
